@@ -1,8 +1,10 @@
 package gen
 
 import (
+	"context"
 	"fmt"
 
+	"github.com/cockroachdb/errors"
 	"github.com/gogo/protobuf/proto"
 )
 
@@ -245,6 +247,21 @@ func (e *BarMulti) Unwrap() []error { return e.Errs }
 type MovedLeaf struct{ Msg string }
 
 func (e MovedLeaf) Error() string { return e.Msg }
+
+// MovedLeaf2 is a type that moved from package "errsim/elsewhere" to this one
+// keeping its name; unlike the C17 types its migration (and a decoder) is part
+// of the base registries, so it occurs in every property's trees: a live
+// type whose family name differs from its current name.
+type MovedLeaf2 struct{ Msg string }
+
+func (e *MovedLeaf2) Error() string { return e.Msg }
+
+func init() {
+	errors.RegisterTypeMigration("errsim/elsewhere", "*gen.MovedLeaf2", &MovedLeaf2{})
+	errors.RegisterLeafDecoder(errors.GetTypeKey(&MovedLeaf2{}), func(_ context.Context, msg string, _ []string, _ proto.Message) error {
+		return &MovedLeaf2{Msg: msg}
+	})
+}
 
 // BarProto is an error type that is itself a protobuf message (hand-written
 // gogo message: field 1 = Msg). It stands for a type renamed from
